@@ -10,7 +10,10 @@ normalisations (notes/C16.md):
       strict_braces is true, and returns a dummy empty chars node at `pos` when there
       is no node and (tolerant or strict_braces is False)  [pylatexenc-2 behaviour,
       documented in the code];
-  N3  the legacy methods return (None, pos, 0) / None where parse_content returns None.
+  N3  the legacy methods return (None, pos, 0) / None where parse_content returns None;
+  N4  a token parse error raised by the LOOK-AHEAD (peek_token_or_none) of the pylatexenc-3
+      arguments parser is not attributed to the arguments by the legacy algorithm when
+      optional_arg_no_space=True makes it skip an optional argument without reading a token.
 """
 import random, collections, warnings, itertools
 import docgen, treedump, tokharness
@@ -650,6 +653,9 @@ def _oracle_args(w, ps, d, pos, L):
     if R[0] == 'err':
         if _is_closing_brace_error(R[1]):
             return None                                      # N2: the legacy algorithm goes on with a dummy node
+        from pylatexenc.latexnodes import LatexWalkerTokenParseError
+        if isinstance(R[1], LatexWalkerTokenParseError) and v['noopt']:
+            return None                                      # N4: look-ahead token error (see notes/C16.md)
         if L[0] not in ('err', 'eos'):
             return _fail('parse_args-does-not-fail-with-new', pos, legacy=L[0], new=str(R[1])[:120])
         return None
